@@ -252,7 +252,7 @@ def check_C06(chk):
                                             EmPong="<- S13", EmWacc="<- S1"))
     replay(chk, nd, chk.seed + 1)
     # the websocket transport under write-side back pressure (see C20): every frame written arrives once, whole, in order
-    p, info = gen_net_trace("c06_burst", "ws", chk.seed * 100 + 51, sessions=0, nbytes=100, writes=False, burst=3000 if thorough else 400)
+    p, info = gen_net_trace("c06_burst", "ws", chk.seed * 100 + 51, sessions=0, nbytes=100, writes=False, burst=600 if thorough else 400)
     chk.extra["burst"] = info
     trace_validate(chk, "c06_burst_tv", p, "websocket burst under back pressure", inv_every=25)
     for i in range(4 if thorough else 1):
@@ -498,7 +498,7 @@ def check_C20(chk):
     # write side under back pressure: small frames and frames of the mode's maximum written back to back while the relay does
     # not read until the writer stalls; every message the relay finally received is a Unit event: one per written frame, in
     # order, none twice, none missing
-    p, info = gen_net_trace("c20_burst", "ws", chk.seed * 100 + 50, sessions=0, nbytes=100, writes=False, burst=3000 if thorough else 400)
+    p, info = gen_net_trace("c20_burst", "ws", chk.seed * 100 + 50, sessions=0, nbytes=100, writes=False, burst=600 if thorough else 400)
     chk.extra["burst"] = info
     if info.get("burst_stalls", 0) == 0:
         chk.assumptions += ["the back-pressure burst did not stall the writer on this run (socket buffers absorbed it): the burst trace then only shows ordering"]
